@@ -355,6 +355,41 @@ func runC14(c *Ctx) {
 		}
 		c.Floor("C14.stream-end/table-rows", rows, 24)
 	}
+	// ---- Cache.Reset excludes Remove/Add while the target is being reset
+	c.Rule("C14.reset-excl", "Cache.Reset calls Target.Reset while holding Cache.mu (read or write) on every path, so a concurrent Remove/Add of that target (which take it for writing) cannot interleave with the announcements of the reset")
+	{
+		cr := P.Method("cache", "Cache", "Reset")
+		tr := P.Method("cache", "Target", "Reset")
+		fMu := P.Field("cache", "Cache", "mu")
+		if cr == nil || tr == nil || fMu == nil {
+			c.Unresolved("C14.reset-excl", "cache.(*Cache).Reset / (*Target).Reset / Cache.mu")
+		} else {
+			c.Analysed(fnName(cr))
+			isTR := lbl("call:" + fnName(tr))
+			e := &PPA{Watch: func(ev *Ev) bool { return isTR(ev) || (isLockOp(ev) && ev.Field == fMu) }}
+			e.Run(cr)
+			c.Paths += len(e.Paths)
+			n := 0
+			for i := range e.Paths {
+				p := &e.Paths[i]
+				held := 0
+				for j := range p.Trace {
+					ev := &p.Trace[j]
+					if isLockOp(ev) {
+						if lockOps[ev.Label][1] == '+' {
+							held++
+						} else {
+							held--
+						}
+						continue
+					}
+					n++
+					c.Check(held > 0, "C14.reset-excl", fnName(cr), "Target.Reset runs under Cache.mu", P.Pos(posOf(ev.In)), "path: "+p.String())
+				}
+			}
+			c.Floor("C14.reset-excl/calls", n, 1)
+		}
+	}
 	// ---- meta init
 	c.Rule("C14.meta-init", "metadata.Clear ranges over the bool, int and string registries and calls ResetEntry for every key; ResetEntry has an arm for each kind and an error for unknown entries")
 	{
@@ -398,5 +433,123 @@ func runC14(c *Ctx) {
 			}
 		}
 		c.Check(len(kinds) == 3, "C14.meta-init", fnName(re), "an arm per kind (bool, int, string)", P.Pos(re.Pos()), fmt.Sprintf("%v", kinds))
+		// Clear writes the value maps only through ResetEntry (which applies each entry's reset policy)
+		{
+			bad := ""
+			for _, g := range withAnon(clr) {
+				instrs(g, func(in ssa.Instruction) {
+					switch x := in.(type) {
+					case *ssa.Store:
+						if fl := fieldOf(x.Addr); fl != nil && strings.HasPrefix(fl.Name(), "values") {
+							bad = "store to Metadata." + fl.Name() + " at " + P.Pos(in.Pos())
+						}
+					case *ssa.MapUpdate:
+						if _, fl := loadedFieldStatic(x.Map); fl != nil && strings.HasPrefix(fl.Name(), "values") {
+							bad = "map write to Metadata." + fl.Name() + " at " + P.Pos(in.Pos())
+						}
+					case *ssa.Call:
+						if b, ok := x.Call.Value.(*ssa.Builtin); ok && b.Name() == "delete" {
+							if _, fl := loadedFieldStatic(x.Call.Args[0]); fl != nil && strings.HasPrefix(fl.Name(), "values") {
+								bad = "delete from Metadata." + fl.Name() + " at " + P.Pos(in.Pos())
+							}
+						}
+					}
+				})
+			}
+			c.Check(bad == "", "C14.meta-init", fnName(clr), "Clear changes values only through ResetEntry", P.Pos(clr.Pos()), bad)
+		}
+		// ResetEntry honours the string entries' policy: DefaultValue => SetStr(entry, ""), Delete => delete, Keep => untouched
+		{
+			consts := map[string]int64{}
+			if sp := P.pkg("metadata"); sp != nil {
+				for _, nm := range []string{"DefaultValue", "Delete", "Keep"} {
+					if nc, ok := sp.Members[nm].(*ssa.NamedConst); ok {
+						if k, ok := constInt(nc.Value); ok {
+							consts[nm] = k
+						}
+					}
+				}
+			}
+			if len(consts) != 3 {
+				c.Unresolved("C14.meta-init", "metadata.DefaultValue / Delete / Keep")
+			} else {
+				for _, act := range []string{"DefaultValue", "Delete", "Keep"} {
+					cond := func(e *PPA, st *State, rv RV) (bool, bool) {
+						r := e.Resolve(st, rv)
+						if b, ok := r.V.(*ssa.BinOp); ok && (b.Op == token.EQL || b.Op == token.NEQ) {
+							// validX(entry) == nil
+							for _, pr := range [][2]ssa.Value{{b.X, b.Y}, {b.Y, b.X}} {
+								if call, ok := pr[0].(*ssa.Call); ok && isNilConst(pr[1]) {
+									switch calleeName(&call.Call) {
+									case "metadata.validBool", "metadata.validInt":
+										return b.Op == token.NEQ, true // not a bool / int entry
+									case "metadata.validStr":
+										return b.Op == token.EQL, true
+									}
+								}
+								if k, ok := constInt(pr[1]); ok {
+									if fl := fieldOf(stripLoad(pr[0])); fl != nil && fl.Name() == "ResetAction" {
+										return (k == consts[act]) == (b.Op == token.EQL), true
+									}
+									if f, ok := pr[0].(*ssa.Field); ok && fieldName(f.X.Type(), f.Field) == "ResetAction" {
+										return (k == consts[act]) == (b.Op == token.EQL), true
+									}
+								}
+							}
+						}
+						return false, false
+					}
+					e := &PPA{Cond: cond, Watch: func(ev *Ev) bool {
+						return ev.Label == "call:(*metadata.Metadata).SetStr" || ev.Label == "builtin:delete" || strings.HasPrefix(ev.Label, "mapupdate:") || ev.Label == "call:(*metadata.Metadata).SetInt" || ev.Label == "call:(*metadata.Metadata).SetBool"
+					}}
+					e.Run(re)
+					c.Paths += len(e.Paths)
+					c.Scen++
+					n := 0
+					for i := range e.Paths {
+						p := &e.Paths[i]
+						if p.End != "return" {
+							continue
+						}
+						n++
+						set := p.Count(lbl("call:(*metadata.Metadata).SetStr"))
+						del := p.Count(lbl("builtin:delete"))
+						other := len(p.Trace) - set - del
+						var ok bool
+						switch act {
+						case "DefaultValue":
+							ok = set == 1 && del == 0 && other == 0
+							if ok {
+								s, isC := constString(p.Trace[0].Args[2].V)
+								ok = isC && s == ""
+							}
+						case "Delete":
+							ok = set == 0 && del == 1 && other == 0
+						case "Keep":
+							ok = len(p.Trace) == 0
+						}
+						c.Check(ok, "C14.meta-init", fnName(re), "string entry with reset policy "+act, P.Pos(re.Pos()), "path: "+p.String())
+					}
+					c.Floor("C14.meta-init/string-policy "+act, n, 1)
+				}
+			}
+		}
 	}
+}
+
+// loadedFieldStatic: the struct field a map/slice value was loaded from (x.f), statically.
+func loadedFieldStatic(v ssa.Value) (ssa.Value, *types.Var) {
+	if u, ok := v.(*ssa.UnOp); ok && u.Op == token.MUL {
+		if fa, ok := u.X.(*ssa.FieldAddr); ok {
+			return fa.X, fieldOf(fa)
+		}
+	}
+	return nil, nil
+}
+
+func stripLoad(v ssa.Value) ssa.Value {
+	if u, ok := v.(*ssa.UnOp); ok && u.Op == token.MUL {
+		return u.X
+	}
+	return v
 }
